@@ -178,6 +178,9 @@ theorem SimInv3.stepOp (H : SimInv3 I SendOk) {x : Sim} (o : Op) (ho : OpOkFor2 
   | dropHandles =>
     simp only [Jm.stepOp, List.mem_singleton] at hy; subst hy
     exact H.close _ h
+  | inject p cs aw =>
+    simp only [Jm.stepOp] at hy
+    exact injectAll_ind I p cs aw (fun z s' hz hs' => H.turns z hz s' hs') (fun z hz => H.doSend p cs aw ho hz) 50 h y hy
 
 theorem SimInv3.runOps (H : SimInv3 I SendOk) (ops : List Op) (hok : ∀ o ∈ ops, OpOkFor2 SendOk o) {x : Sim} (h : I x) :
     ∀ y ∈ runOps x ops, I y := by
